@@ -154,3 +154,47 @@ Proof.
   - destruct (its_list_implicit_end_to_end true ex_inp_bwd ex_rc [ex_T_bwd] eq_refl H5 H6 H7 H8 H9 ex_T_bwd (or_introl eq_refl)) as [A B].
     split; [exact A|exact (proj2 (B H10))].
 Qed.
+
+(** the default mode BACKWARDS from the template as written (proof/C03_LinkBackward.v): O-H . N >> O . H-N applied backwards
+    to CH3OH . NH3 (N gives a hydrogen to O) *)
+From SK Require Import proof.C03_LinkBackward.
+Definition ex_rule_b : triple := match synrule (invert_template ex_tpl_x) true with Some t => t | None => (LG [] [], LG [] [], LG [] []) end.
+Definition ex_inp_b : rin := RI true true ex_host_h (synrule (invert_template ex_tpl_x) true) [(ex_m_s, None)] [] ex_ser.
+Example ex_backward_default_hyps :
+  synrule (invert_template ex_tpl_x) true = Some (fst (fst ex_rule_b), snd (fst ex_rule_b), snd ex_rule_b) /\
+  forallb (call_okm ex_host_h (snd (fst ex_rule_b))) (i_calls ex_inp_b) = true /\
+  option_map (fun gs : list its => map (fun g : its => (length (gnodes g), adj g 3%N 4%N, adj g 4%N 2%N)) gs) (spec_its ex_inp_b)
+    = Some [(4%nat, Some (2, 0, 2), Some (0, 2, -2))].
+Proof. vm_compute. repeat split. Qed.
+Example ex_backward_default : forall gs g, spec_its ex_inp_b = Some gs -> In g gs ->
+  forall e, elem_count e (fst (its_decompose g)) = elem_count e (snd (its_decompose g)).
+Proof.
+  intros gs g Hs Ig.
+  assert (Hel : forall k a, In (k, a) (gnodes ex_tpl_x) -> a_el (iH a) = a_el (iG a)).
+  { intros k a I. simpl in I. destruct I as [I|[I|[I|[]]]]; inversion I; reflexivity. }
+  destruct ex_backward_default_hyps as (H1 & H2 & _).
+  exact (proj1 (proj2 (its_list_default_end_to_end_backward ex_inp_b ex_tpl_x _ _ _ gs eq_refl H1 Hel eq_refl eq_refl ex_tpl_condition
+                         eq_refl H2 Hs g Ig))).
+Qed.
+
+(** a SynRule object (prepared in the default mode from ex_tpl_x) applied backwards: the prepared rule graph is inverted and
+    used as it is *)
+Definition ex_inp_ob : rin := RI true true ex_host_h (wrap_template_rule true false (ex_rc_s, ex_l_s, ex_r_s)) [(ex_m_s, None)] [] ex_ser.
+Example ex_synrule_object_backward_hyps :
+  forallb (call_okm ex_host_h (fst (its_decompose (invert_template ex_rc_s)))) (i_calls ex_inp_ob) = true /\
+  (* the inverted prepared rule carries no h_pairs: the hydrogen moves as COUNTS (N 3 -> 2, O 1 -> 2), no H atom is re-materialised *)
+  option_map (fun gs : list its => map (fun g : its => (length (gnodes g),
+                                                        option_map (fun a => (a_hc (iG a), a_hc (iH a))) (label g 3%N),
+                                                        option_map (fun a => (a_hc (iG a), a_hc (iH a))) (label g 2%N))) gs) (spec_its ex_inp_ob)
+    = Some [(3%nat, Some (3, 2), Some (1, 2))].
+Proof. vm_compute. repeat split. Qed.
+Example ex_synrule_object_backward : forall gs g, spec_its ex_inp_ob = Some gs -> In g gs ->
+  instance_of ex_host_h (invert_template ex_rc_s) g /\ total_charge (fst (its_decompose g)) = total_charge (snd (its_decompose g)).
+Proof.
+  intros gs g Hs Ig.
+  assert (Hel : forall k a, In (k, a) (gnodes ex_tpl_x) -> a_el (iH a) = a_el (iG a)).
+  { intros k a I. simpl in I. destruct I as [I|[I|[I|[]]]]; inversion I; reflexivity. }
+  destruct (its_list_synrule_object_backward false ex_inp_ob ex_tpl_x ex_rc_s ex_l_s ex_r_s gs (proj1 ex_default_mode_hyps) eq_refl Hel
+              eq_refl eq_refl eq_refl (proj1 ex_synrule_object_backward_hyps) Hs g Ig) as [A B].
+  split; [exact A|exact (proj2 (B ex_tpl_condition))].
+Qed.
